@@ -57,7 +57,7 @@ var c16rEvName = []string{"CacheResponse", "add-a", "add-b", "add-c6", "remove-a
 	"EndOfData(new session)", "CacheReset", "SerialNotify(older)", "SerialNotify(equal)", "SerialNotify(newer)", "disconnect(+reconnect)",
 	"lifetime-expiry", "delete-server"}
 
-// records: a and b share one prefix (one bucket), c is IPv6. Record a is the one both caches announce.
+// records: a and b share one prefix (one bucket), c is IPv6 with a's max-length and AS. Record a is the one both caches announce.
 type c16rRec struct {
 	Prefix netip.Addr
 	Len    uint8
@@ -69,7 +69,9 @@ type c16rRec struct {
 var c16rRecs = []c16rRec{
 	{netip.MustParseAddr("10.0.0.0"), 24, 24, 1, false},
 	{netip.MustParseAddr("10.0.0.0"), 24, 25, 2, false},
-	{netip.MustParseAddr("2001:db8::"), 32, 48, 1, true},
+	// same max-length and AS as record a, other prefix and family: a withdrawal of one must not be
+	// mistaken for the other when records are matched by (max-length, AS, source) alone
+	{netip.MustParseAddr("2001:d00::"), 24, 24, 1, true},
 }
 
 const c16rNRec = 3
@@ -811,7 +813,7 @@ func TestVerif_C16_RTR(t *testing.T) {
 	r.Bounds["events_cache_A"] = c16rNEv
 	r.Bounds["events_cache_B"] = len(al) - c16rNEv
 	r.Bounds["start_states"] = 2
-	r.Bounds["records"] = "a=10.0.0.0/24-24 AS1 (both caches), b=10.0.0.0/24-25 AS2, c6=2001:db8::/32-48 AS1"
+	r.Bounds["records"] = "a=10.0.0.0/24-24 AS1 (both caches), b=10.0.0.0/24-25 AS2, c6=2001:d00::/24-24 AS1 (max-length and AS of a)"
 
 	r.Bounds["api_delete_cases"] = len(c16rAPICases)
 	for _, ac := range c16rAPICases {
